@@ -146,6 +146,19 @@ CHECKS["C10"] = dict(level=MC, design="DESIGN.md section 6, C10",
          "exactly when the fill is not a whole number of nops, that apply() with no modifications changes nothing but "
          "leafFunctions, and that aligned blocks stay aligned through a rewrite (including alignment introduced by a patch).")
 
+CHECKS["C20"] = dict(level=MC, design="DESIGN.md section 6, C20",
+    note="Bounded histories, exhaustive within the sizes: ReferenceCache 3-4 blocks / 3-4 symbols / 2-3 retargets + 1-3 "
+         "arbitrary operations + apply(); ReturnEdgeCache 3-4 operations over 2 blocks + proxy, make_return_cache with 10 body "
+         "behaviours; BlockOrdering 4-5 operations over 5 blocks; OffsetMapping 3-4 operations with 3 symbolic displacements; "
+         "IdentitySet 4-5 operations. This is the weakest use of the solver among the checks: only OffsetMapping key "
+         "equalities are decided by z3, everything else is exhaustive enumeration driven by the engine's choice points. "
+         "Trusted: symx, the abstract models in harness/containers.py.",
+    technique="exhaustive bounded operation sequences through symx choice points; z3 for OffsetMapping displacement equalities",
+    text="Every sequence of public operations up to the stated length is executed on the real container and on a plain "
+         "abstract model (dictionary of referents, set of edges scanned for returns, list of lists, dictionary of "
+         "dictionaries, list of identities) and compared after every step; leaving the return-cache context restores the "
+         "caller's CFG object with the final edges also when the body raises, and reports modification/replacement.")
+
 NOT_YET = "check not built yet in this round (planned, see DESIGN.md section 6)"
 
 manifest = {
